@@ -184,6 +184,17 @@ theorem no_resname_no_name_bond (S : Sys) (u v : Nat)
 
 example : lookupBlock [("GLY", { names := ["CA"], edges := [] })] none = none := rfl
 
+-- legal falsy values are values: chain '' / None, insertion code None / '' / ' ', resid 1 / 0 / None give
+-- six different residues (six serials); an attribute that is missing and one that is None are the same
+example :
+    let a (ch ic : Option String) (ri : Option Int) : Atom :=
+      { mol := 0, chain := ch, resid := ri, resname := some "GLY", icode := ic, name := none, element := some "C",
+        x := 0, y := 0, z := 0 }
+    let atoms := [a (some "") none (some 1), a none none (some 1), a (some "") (some "") (some 1),
+                  a (some "") (some " ") (some 1), a (some "") none (some 0), a (some "") none none,
+                  a (some "") none (some 1)]
+    (List.range 7).map (serial atoms) = [0, 1, 2, 3, 4, 5, 0] := by decide
+
 /-! ## the order of the returned molecules -/
 
 theorem molOf_mem {mols : List (List Nat)} {i : Nat} (h : (molOf mols i).contains i = true) :
